@@ -27,6 +27,7 @@ class Observer:
     def __init__(self):
         self.vals = []
         self.vids = []
+        self.shapes = []      # shape metadata (dims and ranks) belongs to the observed state of an operand
         self.next_vid = 1
 
     def observe(self, objs):
@@ -37,15 +38,18 @@ class Observer:
                 out.append(dict(ok=False, rd=[], cd=[], r0=0, rN=0, rk=[], lo=[], ro=[], vid=0, isint=False, v=[]))
                 continue
             val = P.contract(t.cores).reshape(-1).astype(complex)
+            shp = (tuple(t.row_dims), tuple(t.col_dims), tuple(t.ranks))
             if i < len(self.vals):
                 old = self.vals[i]
-                same = old.shape == val.shape and _same_value(old, val)
+                same = old.shape == val.shape and _same_value(old, val) and self.shapes[i] == shp
                 if not same:
                     self.vids[i] = self.next_vid
                     self.next_vid += 1
                     self.vals[i] = val
+                    self.shapes[i] = shp
             else:
                 self.vals.append(val)
+                self.shapes.append(shp)
                 self.vids.append(self.next_vid)
                 self.next_vid += 1
             isint, v = decode(val) if np.all(np.isfinite(val)) else (False, [])
